@@ -225,11 +225,11 @@ func rulesC15(w *World, o *Out) {
 			names, args, recv := mathChain(st.Val)
 			ok := false
 			if len(names) == 0 {
-				nm, _ := loadedField(st.Val)
+				nm, _ := loadedField(canon(st.Val))
 				ok = nm == "Amount"
 			} else if len(names) == 1 && names[0] == "Add" {
-				rn, _ := loadedField(recv)
-				an, _ := loadedField(args[0])
+				rn, _ := loadedField(canon(recv))
+				an, _ := loadedField(canon(args[0]))
 				ok = rn == "Total" && an == "Amount" && fl.DependsOnCall(recv, isCallee(skw, "Keeper", "BridgeTransferUsage")) != nil
 				if ok {
 					nAcc++
